@@ -1990,19 +1990,35 @@ def ref_argorder(ctx: Ctx) -> RuleResult:
             return isinstance(x, ast.Expr) and isinstance(x.value, ast.Call) and isinstance(x.value.func, ast.Attribute) \
                 and x.value.func.attr in ("append", "extend", "insert") and dotted(x.value.func.value) == L
 
-        def counts(block) -> Set[int]:
-            acc = {0}
+        def paths(block, acc: Set[int]):
+            """(counts of the paths that end the iteration inside the block, counts of the paths that fall through it)."""
+            ended: Set[int] = set()
             for st in block:
+                if not acc:
+                    break
                 if is_app(st):
                     acc = {c + 1 for c in acc}
                 elif isinstance(st, ast.If):
-                    a_, b_ = counts(st.body), counts(st.orelse)
-                    acc = {c + d for c in acc for d in (a_ | b_)}
-                elif isinstance(st, (ast.Continue, ast.Break, ast.Return, ast.Raise)):
-                    return {c for c in acc} | {-100}  # marks an early exit from the iteration
+                    e1, f1 = paths(st.body, set(acc))
+                    e2, f2 = paths(st.orelse, set(acc))
+                    ended |= e1 | e2
+                    acc = f1 | f2
+                elif isinstance(st, ast.Continue):
+                    ended |= acc  # this argument is done: what was appended so far is its share
+                    acc = set()
+                elif isinstance(st, ast.Raise):
+                    acc = set()  # the whole call is abandoned
+                elif isinstance(st, (ast.Break, ast.Return)):
+                    ended |= {-100}  # the arguments that follow get nothing
+                    acc = set()
                 elif any(is_app(x) for x in ast.walk(st)):
-                    return {-1}
-            return acc
+                    ended |= {-1}
+                    acc = set()
+            return ended, acc
+
+        def counts(block) -> Set[int]:
+            e_, f_ = paths(block, {0})
+            return e_ | f_
 
         outside = [x for x in iter_own_nodes(g.node) if is_app(x) and not any(any(x is y for y in ast.walk(lp)) for lp in loops)]
         per_iter = counts(loops[0].body) if len(loops) == 1 else {-1}
